@@ -72,6 +72,7 @@ def parseUp (t : String) : Option (String × Bool) :=
 def parseRule (t : String) : Option (String × String) :=
   match t.splitOn "/" with
   | [d, f] => some (unq d, unq f)
+  | [d, f, _reject] => some (unq d, unq f)     -- a reject rcode does not excuse an unknown reference
   | _ => none
 
 def parseList {α} (s : String) (sep : String) (f : String → Option α) : Option (List α) :=
